@@ -5,5 +5,5 @@ CONSTANTS
   MaxOps = 8
   Defects = {}
 CHECK_DEADLOCK FALSE
-INVARIANTS Counted NoUseAfterFree FreeList NoOrphan NoUnderflow
+INVARIANTS Counted NoUseAfterFree FreeList NoOrphan NoUnderflow IndInvOnHeap
 PROPERTIES ContentStable
